@@ -17,6 +17,7 @@ EXPLANATION = (
     "tests it controls no call that can reach stdout - otherwise debugger text on stderr changes what the program prints on stdout. "
     "R7: the stdin command reader holds the process-wide Stdin handle (no private BufReader) and reads it one byte at a time, so it consumes exactly "
     "its own command lines and leaves the program's input alone."
+    " R8: where the loader branches on the debugger options, the side that has them contains no error exit and no process exit (attaching the debugger cannot make a load fail)."
 )
 NOT_DECIDED = "equality of complete runs (follows on paper from R1-R5 and determinism of execute)"
 
@@ -316,3 +317,34 @@ def run(ctx):
                           "`%s` reads through %s on `%s`: more than the one byte being examined may leave the shared input stream" % (short(n), short(c), recv))
     ctx.finish_rule()
 
+    # ------------------------------------------------------------------ R8
+    # a program that loads and runs without the debugger loads with it: where the loader branches on the debugger options, the side that
+    # has them does nothing that can end the load (no error put into the result, no exit) - it only builds the Debugger
+    ctx.rule("C09.R8", "attaching the debugger cannot make the load fail", floor=1)
+    nsw8 = 0
+    for n, f in sorted(prog.fns.items()):
+        if f.bkind != "fn" or not n.startswith("lace::runtime::"):
+            continue
+        optargs = [i for i in range(1, (f.arg_count or 0) + 1) if "Option<" in f.local_ty(i) and "debugger::Options" in f.local_ty(i)]
+        if not optargs:
+            continue
+        errb = kit.error_blocks(f)
+        for b, place, targets, other in kit.discr_switches(f, "core::option::Option"):
+            e = kit.strip_refs(f.expr({"k": "copy", "p": place}, 6))
+            if not (e[0] == "arg" and e[1] in optargs):
+                continue
+            some_t = targets.get(1, other if 0 in targets else None)
+            if some_t is None:
+                continue
+            nsw8 += 1
+            ctx.instance(1)
+            ctx.analysed_fns.add(n)
+            reg = kit.dominated_region(f, some_t)
+            bad = sorted(reg & errb) + sorted(bb for bb, tt, cc in f.calls() if bb in reg and cc in ("std::process::exit", "std::process::abort"))
+            ctx.oblig(not bad, {"loader": short(n), "debugger side": "no error, no exit"}, "region dominated by the Some edge of the options")
+            if bad:
+                ctx.violation("debugger-load-failure|%s" % short(n), sp_file_line(f.term(bad[0]).get("sp")),
+                              "`%s` can refuse to load a program only because a debugger is attached: the same source runs without the debugger and is rejected "
+                              "(or the process ends) with it" % short(n))
+    ctx.need(nsw8 >= 1, "branch on the debugger options in the loader")
+    ctx.finish_rule()
